@@ -14,7 +14,7 @@ NAMES = [b'a', b'b', b'id', b'x', b'name']
 CONS = [b'lower', b'even', b'noa', b'u8']
 UNREG = b'zzz'
 STATICS = [b'a', b'b', b'ab', b'abc', b'.', b'-', b'm', b'x', b'y', b'.txt', 'é'.encode(), 'è'.encode(),
-           '日'.encode(), '月'.encode(), b'\\(', b'\\{', b'\\\\', b'v1', b'a.b', b' ']
+           '日'.encode(), '月'.encode(), b'\\(', b'\\{', b'\\\\', b'v1', b'a.b', b' ', b'\\}', b'a\\}', b'\\)', b'x\\)']
 VALUES = [b'a', b'b', b'ab', b'abc', b'x1', b'12', b'255', b'256', 'é'.encode(), b'a.b', b'a-b', b'm', b'aa',
           b'ba', b'x', b'y', b'.', b'a.txt', 'a日'.encode(), b'zz', b'+7', b'007']
 WVALUES = VALUES + [b'a/b', b'a/b/c', b'a/m/b', b'x/y.txt', b'a//b', b'a/', b'/a', 'é/日'.encode(), b'ab/ba']
@@ -314,6 +314,27 @@ class G:
             out = ('g', seg + ([out] if out else []))
         return flat[:starts[0]] + [out]
 
+    def rank_template(self, vocab):
+        """a best-match-ranked parameter followed by optional groups whose expansions differ in the
+        number of '/' and in text length (depth is ranked before length)"""
+        r = self.r
+        used = []
+        head = [('s', b'/')] + ([('s', r.choice(vocab)), ('s', b'/')] if r.random() < 0.3 else [])
+        kind = r.choice(['w', 'w', 'd'])
+        n0 = r.choice([b'w', b'a', b'x']); used.append(n0)
+        head.append((kind, n0, None))
+        if kind == 'd':
+            head.append(('s', r.choice([b'.', b'-'])))
+            n1 = b'rest'; used.append(n1); head.append(('d', n1, None))
+        deep = [('s', b'/'), ('s', r.choice([b'a', b'm', b'b'])), ('s', b'/'), ('d', b'b', None)]
+        shallow = [('s', b'/'), ('d', r.choice([b'long_name', b'a_very_long_parameter_name', b'q']), None)]
+        groups = [('g', deep), ('g', shallow)]
+        if r.random() < 0.5:
+            groups.reverse()
+        if r.random() < 0.3:
+            groups = groups[:1]
+        return head + groups
+
     def vocab(self):
         r = self.r
         v = r.sample(STATICS, 4) + [b'a', b'b']
@@ -336,6 +357,12 @@ class G:
                 pool.append(self.share_prefix(r.choice(pool), vocab))
             elif pool and k < 0.60:
                 pool.append(self.regroup(r.choice(pool)))
+            elif pool and k < 0.64:
+                # a lone trailing backslash (literal) appended to an existing template
+                base = [it for it in r.choice(pool) if it[0] != 'g']
+                pool.append(base + [('s', b'\\')])
+            elif k < 0.70:
+                pool.append(self.rank_template(vocab))
             else:
                 pool.append(self.template_items(vocab))
         return pool
@@ -513,8 +540,10 @@ def scen_parse_random(g, n):
             for _ in range(r.choice([1, 1, 2])):
                 if r.random() < 0.5 and t:
                     i = r.randrange(len(t)); del t[i]
-                else:
+                elif r.random() < 0.7:
                     i = r.randrange(len(t) + 1); t[i:i] = r.choice(SYNTAX[:8])
+                else:
+                    i = r.randrange(len(t) + 1); t[i:i] = r.choice([b'\\}', b'\\{', b'\\(', b'\\)', b'\\\\', b'\\'])
         try:
             bytes(t).decode()
         except UnicodeDecodeError:
@@ -556,7 +585,7 @@ def scen_groups(g, n):
     for _ in range(n):
         vocab = g.vocab()
         for _ in range(20):
-            it = g.template_items(vocab)
+            it = g.rank_template(vocab) if r.random() < 0.3 else g.template_items(vocab)
             if r.random() < 0.5:
                 it = g.add_groups(it, [], vocab)
             if r.random() < 0.3:
